@@ -2,6 +2,7 @@ package rules
 
 import (
 	"cvcheck/internal/core"
+	"strings"
 
 	"golang.org/x/tools/go/ssa"
 )
@@ -206,20 +207,20 @@ func C18(c *Ctx) {
 	}
 	// every stdout print reachable after format.Source succeeded prints the formatted value as operand
 	fmtOK := c.M(true, errNotNil("go/format.Source"))
-	for _, s := range c.Calls(func(n string) bool { return classify(n) == effOut }) {
-		if s.Fn != g.fn {
+	for _, s := range c.Calls(func(n string) bool {
+		return classify(n) == effOut || n == "(*os.File).Write" || n == "(*os.File).WriteString"
+	}) {
+		if s.Fn != g.fn || (strings.HasPrefix(s.Callee, "(*os.File)") && !c.isStdStreamWrite(s)) {
 			continue
 		}
 		d := c.ReachOf(s.Instr)
 		if !d.Implies(fmtOK) || len(d) == 0 {
 			continue
 		}
-		ok := s.Callee == "fmt.Println" || s.Callee == "fmt.Print"
-		if ok {
-			a := c.varargAt(s.Args()[0], 0)
-			ok = a != nil && a.Kind == "convert" && a.Name == "string" && a.Args[0].String() == g.data.String()
-		}
-		r.Check("C18-4", gk+":success-print:"+shortCallee(s.Callee), c.Pos(s.Pos()), ok, "on a success path stdout must receive exactly string(<written bytes>) as an operand of fmt.Print/Println (a Printf would interpret % in the code)")
+		pv, exact, ok := c.stdoutPrint(s)
+		ok = ok && pv.String() == g.data.String()
+		r.Check("C18-4", gk+":success-print:"+shortCallee(s.Callee), c.Pos(s.Pos()), ok, "on a success path stdout must receive the written bytes themselves (os.Stdout.Write(data) or fmt.Print(string(data)); a Printf would interpret % in the code)")
+		r.Check("C18-4", gk+":success-print-exact:"+shortCallee(s.Callee), c.Pos(s.Pos()), ok && exact, "stdout receives the written bytes plus something: fmt.Println appends a newline the file does not contain (-print output must be identical to the file)")
 	}
 	// prints through a local closure: on success paths the closure must be given the written bytes; the closure body itself
 	// must print with Print/Println only
@@ -233,16 +234,16 @@ func C18(c *Ctx) {
 		}
 	}
 	for _, af := range g.fn.AnonFuncs {
-		for _, s := range c.Calls(func(n string) bool { return classify(n) == effOut }) {
-			if s.Fn != af {
+		for _, s := range c.Calls(func(n string) bool {
+			return classify(n) == effOut || n == "(*os.File).Write" || n == "(*os.File).WriteString"
+		}) {
+			if s.Fn != af || (strings.HasPrefix(s.Callee, "(*os.File)") && !c.isStdStreamWrite(s)) {
 				continue
 			}
-			ok := s.Callee == "fmt.Println" || s.Callee == "fmt.Print"
-			if ok {
-				a := c.varargAt(s.Args()[0], 0)
-				ok = a != nil && a.Kind == "convert" && a.Name == "string" && a.Args[0].Kind == "param"
-			}
-			r.Check("C18-4", FnKey(af)+":print:"+shortCallee(s.Callee), c.Pos(s.Pos()), ok, "a print helper of the writing function must print string(<its argument>) as an operand of fmt.Print/Println")
+			pv, exact, ok := c.stdoutPrint(s)
+			ok = ok && pv.Kind == "param"
+			r.Check("C18-4", FnKey(af)+":print:"+shortCallee(s.Callee), c.Pos(s.Pos()), ok, "a print helper of the writing function must print its argument's bytes themselves")
+			_ = exact
 		}
 	}
 	c.loggerOptionRule("C18-6")
